@@ -276,7 +276,13 @@ def Hooks.delegating (σ : Settings) (m : Nat) (blockSample : Bool) (denseEig : 
 /-- `method=<the bound method argument>` passed by keyword (how the overrides forward `method` to a sub-operator). -/
 def kwMethod (c : Call) : Call := ⟨[], [("method", match c.method with | some x => .str x | none => .none)]⟩
 
-/-- ConstantMulLinearOperator (constant ≥ 0): dense base-class hooks on the wrapper (through its memoised `to_dense`), the Lanczos
+/-- `initial_vectors=None, test_vectors=None, method=<bound method>`: how `KroneckerProductLinearOperator.root_inv_decomposition`
+calls `super().root_inv_decomposition` (after fix D33) and how `ConstantMulLinearOperator.root_inv_decomposition` (after c4c33aa) calls
+`self.base_linear_op.root_inv_decomposition` — all three by keyword. -/
+def kwRootInv (c : Call) : Call :=
+  ⟨[], [("initial_vectors", .none), ("test_vectors", .none), ("method", match c.method 2 with | some x => .str x | none => .none)]⟩
+
+/-- ConstantMulLinearOperator (constant > 0; after /repo c4c33aa): dense base-class hooks on the wrapper (through its memoised `to_dense`), the Lanczos
 inverse root side-writes the WRAPPER's `root_decomposition||`, and `root_decomposition(method)` is the scaled root of the base. -/
 def Hooks.constMul (σ : Settings) (m : Nat) : Hooks where
   chol u w := (w, Val.chol u m)
@@ -292,13 +298,37 @@ def Hooks.constMul (σ : Settings) (m : Nat) : Hooks where
       | [o] => (match (runQuery o.P σ o.n o.m (.root kw) o.st).2 with | .root p _ _ _ => p | _ => .transplant)
       | _ => .transplant
     .inl (r.1, Val.root p false false (if r.2 then m else 0))
+  -- after /repo c4c33aa (constant > 0): memoised override = the base operator's inverse root (all three arguments by keyword) scaled by c^-1/2;
+  -- the Lanczos side write therefore lands in the BASE operator's cache, and root / inverse root come from the same factorization of the base
+  rootInvOv := some fun c w =>
+    let kw : Call := kwRootInv c
+    let r := subsQuery σ (.rootInv kw) w
+    let p : Prov := match w.subs with
+      | [o] => (match (runQuery o.P σ o.n o.m (.rootInv kw) o.st).2 with | .rootInv p _ => p | _ => .transplant)
+      | _ => .transplant
+    .inl (r.1, Val.rootInv p (if r.2 then m else 0))
   iqlOv := none
   sampleOv := none
 
-/-- `initial_vectors=None, test_vectors=None, method=<bound method>`: how `KroneckerProductLinearOperator.root_inv_decomposition`
-calls `super().root_inv_decomposition` (after fix D33 all three by keyword). -/
-def kwRootInv (c : Call) : Call :=
-  ⟨[], [("initial_vectors", .none), ("test_vectors", .none), ("method", match c.method 2 with | some x => .str x | none => .none)]⟩
+
+/-- ConstantMulLinearOperator as it was BEFORE /repo c4c33aa (kept only for `previous_constMul_side_write_location`; not what the driver runs): dense base-class hooks on the wrapper (through its memoised `to_dense`), the Lanczos
+inverse root side-writes the WRAPPER's `root_decomposition||`, and `root_decomposition(method)` is the scaled root of the base. -/
+def Hooks.constMulBefore_c4c33aa (σ : Settings) (m : Nat) : Hooks where
+  chol u w := (w, Val.chol u m)
+  symeig w := w.putSelf LinOp.C12.denseKey (Val.dense m)
+  svd w := (w.putSelf LinOp.C12.denseKey (Val.dense m), Val.svd m)
+  lroot w := (wBump w, Val.root (.lanczos w.self.run) false false m)
+  lrootInv w := (wBump (w.putSelf (rootKey .noargs) (Val.root (.lanczos w.self.run) false false m)), Val.rootInv (.lanczos w.self.run) m)
+  denseKey := true
+  rootOv := some fun c w =>
+    let kw : Call := kwMethod c
+    let r := subsQuery σ (.root kw) w
+    let p : Prov := match w.subs with
+      | [o] => (match (runQuery o.P σ o.n o.m (.root kw) o.st).2 with | .root p _ _ _ => p | _ => .transplant)
+      | _ => .transplant
+    .inl (r.1, Val.root p false false (if r.2 then m else 0))
+  iqlOv := none
+  sampleOv := none
 
 /-- `method=<method as bound by root_inv_decomposition (third positional, else keyword)>` by keyword. -/
 def kwMethod2 (c : Call) : Call := ⟨[], [("method", match c.method 2 with | some x => .str x | none => .none)]⟩
